@@ -187,7 +187,7 @@ pub fn judge_program(rep: &mut Report, runner: &mut Runner, family: &str, e: &Ex
 	let mtext = print(&minimal);
 	let (mv, _) = run_program(&minimal);
 	let mo = runner.run(emb, &mtext);
-	let sk = match crate::judge::trigger(&minimal) {
+	let sk = match crate::judge::trigger_for(&mkey, &minimal) {
 		Some(t) => t.to_owned(),
 		None => key_hint.unwrap_or_else(|| skeleton(&minimal)),
 	};
